@@ -2,6 +2,7 @@ package main
 
 import (
 	"bytes"
+	"regexp"
 	"strings"
 	"sync"
 	"time"
@@ -167,6 +168,11 @@ func allIndex(s, sub string) []int {
 	}
 }
 
+var (
+	callWithDataSelfClosing = regexp.MustCompile(`(\{call [a-zA-Z0-9_.]+ data="[^"]*")( ?/\})`)
+	callWithDataOpen        = regexp.MustCompile(`\{call [a-zA-Z0-9_.]+ data="[^"]*"\}`)
+)
+
 var injectors = []injector{
 	{"undeclared-name", func(r *RNG, fs []srcFile) ([]srcFile, bool) {
 		// in every syntactic position that takes an expression
@@ -202,6 +208,25 @@ var injectors = []injector{
 			return replaceFirstFrom(r, fs, "{/call}", "{param zz: 1/}{/call}")
 		}
 		return replaceFirstFrom(r, fs, "{/call}", "{param zz}x{/param}{/call}")
+	}},
+	// the same violation at a call that passes data: data="all" / data="$m" waive the REQUIRED-param check only
+	{"undeclared-call-param-with-data", func(r *RNG, fs []srcFile) ([]srcFile, bool) {
+		out := append([]srcFile(nil), fs...)
+		start := r.Intn(len(out))
+		for k := 0; k < len(out); k++ {
+			fi := (start + k) % len(out)
+			c := out[fi].content
+			if loc := callWithDataSelfClosing.FindStringSubmatchIndex(c); loc != nil {
+				out[fi].content = c[:loc[3]] + "}{param zz: 1/}{/call}" + c[loc[1]:]
+				return out, true
+			}
+			if loc := callWithDataOpen.FindStringIndex(c); loc != nil {
+				out[fi].content = c[:loc[1]] + "{param zz}x{/param}" + c[loc[1]:]
+				return out, true
+			}
+		}
+		// no such call in the bundle: add one (every generated bundle has a template t0 in its first namespace)
+		return bodySite(r, fs, []string{"{call .t0 data=\"all\"}{param zz: 1/}{/call}", "{call .t0 data=\"['a': 1]\"}{param zz: 1/}{/call}", "{call .t0 data=\"[:]\"}{param zz}x{/param}{/call}"}[r.Intn(3)])
 	}},
 	{"unknown-callee", func(r *RNG, fs []srcFile) ([]srcFile, bool) {
 		return bodySite(r, fs, []string{"{call .nope /}", "{call no.such.tmpl /}", "{call .nope data=\"all\"/}"}[r.Intn(3)])
